@@ -26,6 +26,8 @@ W03 == IOEnv.C03 = "1"
 W04 == IOEnv.C04 = "1"
 W05 == IOEnv.C05 = "1"
 W10 == IOEnv.C10 = "1"
+\* largest |haystack| * |needle| for which the full-matrix recurrence is evaluated (C04)
+NaiveMax == atoi(IOEnv.NAIVEMAX)
 
 \* NOTE: state variables must not share a name with any bound identifier of the library modules
 \* (a variable called `i` made TLC treat Chars!Row as state-dependent and re-evaluate it per character).
@@ -110,7 +112,7 @@ BlockFails(r, N, K, b, blk) ==
                  Bad(Score(o[1]) <= best, "C04", "above_optimum", blk)
                  \cup (IF n = 1 THEN Bad(Score(o[1]) = best, "C04", "one_char_not_best", blk) ELSE {})
             ELSE {})
-           \cup (IF Len(N) * n <= 4000
+           \cup (IF Len(N) * n <= NaiveMax /\ Admissible(Len(N), n, IF b.rh = "A" THEN 1 ELSE 4)
                  THEN Bad(NaiveRec(N, K, needle, r.paths) <= Score(o[1]), "C04", "below_recurrence", blk)
                  ELSE {})))
 
